@@ -34,6 +34,10 @@ C = {
          "exhaustive fault / hostile-input enumeration over bounded string families on the implementation (outcome-class oracle, subprocess supervision)"),
  "C15": ("Full cross products of boundary alphabets for every fallible constructor and all 10 setters, complete 2^32 sweeps of Time::from_seconds and Offset::from_seconds; Ok iff reference-valid and reads back its arguments, Err is OutOfRange, and a stated range is checked against the set of values the real function accepts for the named parameter.",
          "exhaustive enumeration of boundary-alphabet cross products and complete u32/i32 argument axes on the implementation, validity oracle"),
+ "C16": ("Every item of the documented grammar for each of the five fields (every value, every range a<=b, every step 1..=max+1, month and weekday names in four casings, name ranges, 7 and a-7, lists) observed through the iterator under a pinned clock across a window containing every value of the field, plus every single-character deletion / insertion / substitution (41-character alphabet) of ~300 base expressions (~300 000 mutants) classified by a strict reference parser: accept/reject must agree, accepted mutants must denote the reference sets and yield the reference's first minutes.",
+         "exhaustive enumeration of the documented grammar and of all single-edit mutants on the implementation (hooked clock), reference-parser oracle"),
+ "C17": ("stateright BFS over every history of (advance the pinned clock by one of 9 amounts from 0 s to 400 d, call next) and clone-and-continue up to depth 3 (4 thorough) from 12 (41) satisfiable schedules x 30 second-granular start instants (month ends, leap days, year ends, inside/just before/just after a matching minute); every next() is compared with a brute-force 'earliest matching minute after max(now, previous)' evaluator on the reference calendar.",
+         "explicit-state BFS (stateright) over clock-advance/next histories on the real iterator with a hooked clock, brute-force reference oracle"),
  "C20": ("Display, FromStr and serde_json round trips on every day of seven windows, landmarks and a day lattice (all 2^32 days thorough) for Date, all 86 400 seconds x 27 offsets for Time, every 23rd day (every day thorough) of years 1..=9999 x 2 times x 3 offsets and boundary instants x all 2 879 whole-minute offsets for DateTime; malformed side: every string of length <= 4 over a 16-symbol alphabet and every truncation / single / double substitution of four templates through Deserialize for all three types (serde error, never a panic).",
          "exhaustive enumeration of value and bounded document spaces on the implementation, reference-rendering and round-trip oracle"),
 }
